@@ -6,8 +6,13 @@ import (
 	"os"
 	"strings"
 	"sync"
+	"sync/atomic"
 	"time"
 )
+
+// solverSlots bounds the number of solver processes started for individual
+// obligations across all functions.
+var solverSlots = make(chan struct{}, 14)
 
 // Result of verifying one function.
 type FuncResult struct {
@@ -47,39 +52,47 @@ func (e *FuncEnc) Verify(scratch string, timeoutS int) *FuncResult {
 	if len(e.Obls) == 0 {
 		return res
 	}
-	// incremental pass with z3
-	var b strings.Builder
-	b.WriteString(e.D.String())
-	pos := 0
-	for _, o := range e.Obls {
-		for ; pos < o.bodyPos; pos++ {
-			b.WriteString(e.body[pos])
-			b.WriteByte('\n')
-		}
-		b.WriteString("(push 1)\n" + goal(o) + "\n(check-sat)\n(pop 1)\n")
+	// incremental pass with z3 (skipped for very large scripts, where z3's
+	// incremental core is much slower than fresh processes in parallel)
+	size := 0
+	for _, l := range e.body {
+		size += len(l)
 	}
-	sts, secs := SolveIncremental(b.String(), scratch, e.Name, timeoutS*2+len(e.Obls)/4)
-	per := secs / float64(len(e.Obls))
 	var retry []*Obligation
-	for i, o := range e.Obls {
-		if i < len(sts) && sts[i] == "unsat" {
-			o.Status, o.Solver, o.Secs = "proved", "z3(incremental)", per
-			c, _ := SolverCounts.LoadOrStore("z3(incremental)", new(int64))
-			*(c.(*int64))++
-		} else {
-			retry = append(retry, o)
+	if size > 150000 && len(e.Obls) > 12 {
+		retry = append(retry, e.Obls...)
+	} else {
+		var b strings.Builder
+		b.WriteString(e.D.String())
+		pos := 0
+		for _, o := range e.Obls {
+			for ; pos < o.bodyPos; pos++ {
+				b.WriteString(e.body[pos])
+				b.WriteByte('\n')
+			}
+			b.WriteString("(push 1)\n" + goal(o) + "\n(check-sat)\n(pop 1)\n")
+		}
+		sts, secs := SolveIncremental(b.String(), scratch, e.Name, timeoutS*2+len(e.Obls)/4)
+		per := secs / float64(len(e.Obls))
+		for i, o := range e.Obls {
+			if i < len(sts) && sts[i] == "unsat" {
+				o.Status, o.Solver, o.Secs = "proved", "z3(incremental)", per
+				c, _ := SolverCounts.LoadOrStore("z3(incremental)", new(int64))
+				atomic.AddInt64(c.(*int64), 1)
+			} else {
+				retry = append(retry, o)
+			}
 		}
 	}
 	// individual pass with the portfolio
 	var wg sync.WaitGroup
-	sem := make(chan struct{}, 4)
 	for _, o := range retry {
 		o := o
 		wg.Add(1)
-		sem <- struct{}{}
+		solverSlots <- struct{}{}
 		go func() {
 			defer wg.Done()
-			defer func() { <-sem }()
+			defer func() { <-solverSlots }()
 			script := e.prefix(o.bodyPos) + goal(o) + "\n(check-sat)\n(get-model)\n"
 			r := Solve(script, scratch, o.Name, timeoutS)
 			o.Solver, o.Secs = r.Solver, r.Secs
